@@ -112,6 +112,12 @@ class T:
             root = f
             while isinstance(root, (ast.Attribute, ast.Subscript, ast.Call)):
                 root = root.value if not isinstance(root, ast.Call) else root.func
+            if isinstance(f, ast.Attribute) and isinstance(root, ast.Name) and root.id == "device" \
+                    and not ctx["locked"]:
+                # nfc.clf.device.connect(path) probes hardware and initialises a driver: a driver call
+                # that must be made under the frontend lock like any other
+                out.append(self.other(node, ctx))
+                return out
             if isinstance(f, ast.Attribute) and (isinstance(root, ast.Constant) or
                                                  (isinstance(root, ast.Name) and root.id in BENIGN_ROOTS)):
                 # e.g. log.debug(...), "..".format(...), target.brty.endswith(..), options.get(..), device.connect(path)
